@@ -140,16 +140,12 @@ def run(ctx):
         lp, p = got
         tgt = getattr(p, "_parent", None)
         names = [dotted(e) for e in tgt.targets[0].elts] if isinstance(tgt, ast.Assign) and isinstance(tgt.targets[0], ast.Tuple) else []
-        calls = [c for c in walk_shallow(lp) if isinstance(c, ast.Call) and dotted(c.func) == "self._run_user"]
-        ok = len(names) == 3 and len(calls) == 1
-        if ok:
-            c = calls[0]
-            ok = (c.args and dotted(c.args[0]) == names[0] and any(isinstance(a, ast.Starred) and dotted(a.value) == names[1] for a in c.args)
-                  and any(k.arg is None and dotted(k.value) == names[2] for k in c.keywords))
-            ok = ok and not any(isinstance(pp, (ast.If, ast.Try)) for pp in _ancestors(c, lp))
-        ctx.check("R-DRAIN-LIFO", "RunTest._run_cleanups invokes each popped cleanup once with its args and kwargs", lp, ok,
-                  "the popped (function, arguments, keywordArguments) triple is not invoked exactly once as _run_user(function, *arguments, **keywordArguments)",
-                  construct=f"{Q}._run_cleanups::invoke-once")
+        ok, why = forwards_triple(ctx, lp, names, rt)
+        ctx.check("R-DRAIN-LIFO", "RunTest._run_cleanups hands each popped cleanup its args and kwargs", lp, ok,
+                  "the popped (function, arguments, keywordArguments) triple is not invoked as function(*arguments, **keywordArguments) "
+                  f"(directly, through _run_user or through a helper): {why}", construct=f"{Q}._run_cleanups::invoke-once")
+        for label, suffix, ok2, msg, r in runmodel.drain_verdicts(ctx, rt):
+            ctx.check("R-DRAIN-LIFO", label, rcl, ok2, msg, path=runmodel.fmt_log(r.state), construct=f"{Q}._run_cleanups::{suffix}")
         rets = [n for n in walk_shallow(rcl, include_self=False) if isinstance(n, ast.Return)]
         ok = len(rets) == 1 and dotted(rets[0].value) == "self.exception_caught" and isinstance(getattr(rets[0], "_parent", None), ast.If)
         ctx.check("R-DRAIN-LIFO", "RunTest._run_cleanups reports failure through the sentinel", rcl, ok,
@@ -161,15 +157,10 @@ def run(ctx):
         lp, p = got
         tgt = getattr(p, "_parent", None)
         names = [dotted(e) for e in tgt.targets[0].elts] if isinstance(tgt, ast.Assign) and isinstance(tgt.targets[0], ast.Tuple) else []
-        calls = [c for c in walk_shallow(lp) if isinstance(c, ast.Call) and dotted(c.func) == "defer.maybeDeferred"]
-        ok = len(names) == 3 and len(calls) == 1
-        if ok:
-            c = calls[0]
-            ok = (c.args and dotted(c.args[0]) == names[0] and any(isinstance(a, ast.Starred) and dotted(a.value) == names[1] for a in c.args)
-                  and any(k.arg is None and dotted(k.value) == names[2] for k in c.keywords))
+        ok, why = forwards_triple(ctx, lp, names, classes.get(TWRUNTEST, "AsynchronousDeferredRunTest"))
         yields = [y for y in walk_shallow(lp) if isinstance(y, ast.Yield)]
         ctx.check("R-DRAIN-LIFO", "AsynchronousDeferredRunTest._run_cleanups invokes each popped cleanup once and waits for it", lp, ok and len(yields) == 1,
-                  "the popped (f, args, kwargs) triple is not invoked once through maybeDeferred(f, *args, **kwargs) and awaited",
+                  f"the popped (f, args, kwargs) triple is not invoked once as f(*args, **kwargs) (directly, through maybeDeferred or a helper) and awaited with one yield: {why}",
                   construct=f"{TWRUNTEST}:AsynchronousDeferredRunTest._run_cleanups::invoke-once")
 
     # ------------------------------------------------------------------ reset completeness
@@ -304,6 +295,47 @@ def run(ctx):
     n_sites = check_call_shapes(ctx)
     ctx.floor("R-CALL-SHAPE", 150, "resolved self/super call sites")
     ctx.assume("unittest.TestCase.doCleanups is not used: testtools keeps its own _cleanups list")
+
+
+INVOKERS = {"self._run_user", "defer.maybeDeferred", "maybeDeferred"}
+
+
+def _invokes(call, f, a, k):
+    """Is call `f(*a, **k)`, or `<invoker>(f, *a, **k)`?"""
+    star = any(isinstance(x, ast.Starred) and dotted(x.value) == a for x in call.args)
+    kw = any(x.arg is None and dotted(x.value) == k for x in call.keywords)
+    if not (star and kw):
+        return False
+    if dotted(call.func) == f:
+        return True
+    return dotted(call.func) in INVOKERS and bool(call.args) and dotted(call.args[0]) == f
+
+
+def forwards_triple(ctx, loop, names, receiver):
+    """The three names bound from the popped entry reach exactly one invocation per iteration: in the
+    loop body itself, or in a helper method that receives them (in order) and invokes them."""
+    if len(names) != 3:
+        return False, "the popped entry is not unpacked into (function, args, kwargs)"
+    f, a, k = names
+    direct = [c for c in walk_shallow(loop) if isinstance(c, ast.Call) and _invokes(c, f, a, k)]
+    if len(direct) == 1:
+        return True, ""
+    if len(direct) > 1:
+        return False, "the cleanup is invoked more than once per iteration"
+    via = []
+    for c in walk_shallow(loop):
+        ch = attr_chain(c.func) if isinstance(c, ast.Call) else None
+        if ch and ch[0] == "self" and len(ch) == 2 and [dotted(x) for x in c.args] == [f, a, k] and not c.keywords:
+            owner, h = ctx.classes.resolve_method(receiver, ch[1])
+            if isinstance(h, FUNC_TYPES):
+                ps = [p.arg for p in h.args.args][1:]
+                inner = [x for x in walk_shallow(h, include_self=False) if isinstance(x, ast.Call) and len(ps) == 3 and _invokes(x, *ps)]
+                if len(inner) == 1:
+                    ctx.analysed(h)
+                    via.append(c)
+    if len(via) == 1:
+        return True, ""
+    return False, "no call of the form f(*args, **kwargs) on the popped names was found"
 
 
 def _ancestors(node, stop):
